@@ -259,7 +259,9 @@ def conn (c : Case) : Verdict :=
     | .abort a => cmp s!"{pskTag},shpsk,abort-{alertName a}" hserr (alertName a)
     | .panic => .diff s!"{pskTag},shpsk" "model-panic"
     | _ => .ok s!"{pskTag},shpsk,session-used,{stage}"
-  else if i.getD "hrr" "0" = "1" ∧ nids > 0 ∧ o.getD "sess" "0" = "0" ∧ (!changed ∨ mutN = "cookie") ∧ o.getD "srv" "-" ≠ "-" then
+  else if i.getD "hrr" "0" = "1" ∧ nids > 0 ∧ o.getD "sess" "0" = "0" ∧ (!changed ∨ (mutN = "cookie" ∧ i.getD "mut" "" ≠ "cookie:0")) ∧ o.getD "srv" "-" ≠ "-" then
+    -- (an empty cookie does not parse: `serverHelloMsg.unmarshal` refuses it before the PSK branch is reached;
+    -- that case is judged with the other mutated flights below)
     match pskHelloRetry st with
     | .abort a => cmp s!"{pskTag},hrr,abort-{alertName a}" hserr (alertName a)
     | _ => .diff s!"{pskTag},hrr" "model: abort"
